@@ -7487,6 +7487,10 @@ func (l *Lowerer) lowerCall(call *parser.CallExpr, target *[]ir.Statement) (ir.E
 		return 0, fmt.Errorf("result of @must_use function '%s' must be used", funcName)
 	}
 
+	// Arguments are sub-expressions whose values are consumed by the call,
+	// so they are never "statements" even when the call itself is one.
+	wasStatement := l.isStatement
+	l.isStatement = false
 	args := make([]ir.ExpressionHandle, len(call.Args))
 	for i, arg := range call.Args {
 		handle, err := l.lowerExpression(arg, target)
@@ -7495,6 +7499,7 @@ func (l *Lowerer) lowerCall(call *parser.CallExpr, target *[]ir.Statement) (ir.E
 		}
 		args[i] = handle
 	}
+	l.isStatement = wasStatement
 
 	// Validate argument count and types, then concretize abstract literals.
 	if int(funcHandle) < len(l.module.Functions) {
